@@ -193,16 +193,74 @@ class OptimiserAnchors:
         return [tgt for tgt, vs in m.items() if variant in vs]
 
     def reach_under(self, variant, starts, avoid=()):
+        """Blocks reachable from `starts` on executions where the decision returned `variant`, without entering `avoid`.
+        Besides the tests of the decision value itself, values DERIVED from it are followed: a local that receives a different
+        enum variant (or bool constant) on different paths (`MoveOutcome::from(decision)`, `let accepted = d.is_some()`)
+        selects, at a later switch on it, only the edges its possible values allow."""
         avoid = set(avoid)
-        seen, stack = set(), [x for x in starts if x not in avoid]
-        while stack:
-            x = stack.pop()
-            if x in seen:
-                continue
+        b, tr = self.body, self.tr
+        env0 = {}
+        state = {}
+        work = []
+        for x in starts:
+            if x not in avoid:
+                state[x] = dict(env0)
+                work.append(x)
+        seen = set()
+        guard = 0
+        while work:
+            guard += 1
+            if guard > 20000:
+                break
+            x = work.pop()
             seen.add(x)
-            for y in self.succs_under(x, variant):
-                if y not in avoid and y not in seen:
-                    stack.append(y)
+            e = dict(state[x])
+            for st in b.blocks[x]['stmts']:
+                if st['s'] != 'assign' or st['place']['p']:
+                    continue
+                l, rv = st['place']['l'], st['rv']
+                if rv['r'] == 'aggr' and rv.get('agg') == 'adt' and rv.get('vi') is not None:
+                    e[l] = frozenset([rv['vi']])
+                elif rv['r'] == 'use' and rv['a'].get('k') == 'const' and 'bool' in rv['a']:
+                    e[l] = frozenset([1 if rv['a']['bool'] else 0])
+                elif rv['r'] == 'use' and 'l' in rv['a'] and not rv['a']['p'] and rv['a']['l'] in e:
+                    e[l] = e[rv['a']['l']]
+                elif rv['r'] == 'discr' and not rv['place']['p'] and rv['place']['l'] in e:
+                    e[l] = e[rv['place']['l']]
+                else:
+                    e.pop(l, None)
+            t = b.blocks[x]['term']
+            if t['t'] == 'call' and not t['dest']['p']:
+                e.pop(t['dest']['l'], None)
+            succs = self.succs_under(x, variant)
+            allowed = None
+            if t['t'] == 'switch' and self.decision_test(x) is None and 'l' in t['discr'] and not t['discr']['p'] and t['discr']['l'] in e:
+                vals = e[t['discr']['l']]
+                allowed = {}
+                arms = dict((v, y) for v, y in t['arms'])
+                for v in vals:
+                    tgt = arms.get(str(v), t['otherwise'])
+                    allowed.setdefault(tgt, set()).add(v)
+            for y in succs:
+                if y in avoid:
+                    continue
+                if allowed is not None and y not in allowed:
+                    continue
+                e2 = dict(e)
+                if allowed is not None:
+                    e2[t['discr']['l']] = frozenset(allowed[y])
+                if y not in state:
+                    state[y] = e2
+                    work.append(y)
+                else:
+                    # join: keep only facts that agree, union of value sets
+                    old = state[y]
+                    new = {}
+                    for k in set(old) & set(e2):
+                        new[k] = old[k] | e2[k]
+                    if new != old:
+                        state[y] = new
+                        work.append(y)
         return seen
 
     def after_decision(self):
